@@ -65,13 +65,41 @@ pub fn table_of<R: KhRing>(h: &KhHomologyBigraded<R>) -> Table where for<'x> &'x
 
 /// how the complex is built
 #[derive(Clone, Debug)]
-pub struct BuildCfg { pub order: Option<Vec<usize>>, pub auto_deloop: bool, pub auto_elim: bool }
+/// `split = Some(m)`: divide and conquer — the first m crossings (of `order`, or of the diagram) and the remaining
+/// ones are turned into two tangle complexes of their own, each carrying the degree shift of its own crossings,
+/// glued with the public planar composition `TngComplex::connect`, then finalised through the builder
+pub struct BuildCfg { pub order: Option<Vec<usize>>, pub auto_deloop: bool, pub auto_elim: bool, pub split: Option<usize> }
 
-impl BuildCfg { pub fn default_cfg() -> Self { BuildCfg { order: None, auto_deloop: true, auto_elim: true } } }
+impl BuildCfg { pub fn default_cfg() -> Self { BuildCfg { order: None, auto_deloop: true, auto_elim: true, split: None } } }
 
 pub fn build_complex<R: KhRing>(l: &Link, h: &R, t: &R, reduced: bool, cfg: &BuildCfg) -> KhComplex<R> where for<'x> &'x R: EucRingOps<R> {
-    if cfg.order.is_none() && cfg.auto_deloop && cfg.auto_elim { return KhComplex::new(l, h, t, reduced) }
+    if cfg.order.is_none() && cfg.auto_deloop && cfg.auto_elim && cfg.split.is_none() { return KhComplex::new(l, h, t, reduced) }
     let base_pt = if reduced { l.first_edge() } else { None };
+    if let Some(m) = cfg.split {
+        let xs = l.data().clone();
+        let n = xs.len();
+        let mut order: Vec<usize> = cfg.order.clone().unwrap_or_else(|| (0..n).collect());
+        let m = m.min(n);
+        // the marked edge of the reduced theory must lie in the half that carries the base point
+        if let Some(e) = base_pt { if let Some(pos) = order.iter().position(|&k| xs[k].edges().contains(&e)) { let k = order.remove(pos); order.insert(0, k); } }
+        let signs = l.crossing_signs();
+        let total = KhComplex::<R>::deg_shift_for(l, reduced);
+        let right = order[m..].iter().fold((0isize, 0isize), |(a, b), &k| if signs[k] == yui::Sign::Neg { (a - 1, b - 2) } else { (a, b + 1) });
+        let left = (total.0 - right.0, total.1 - right.1);
+        let mut b1 = TngComplexBuilder::init(h, t, left, base_pt);
+        b1.auto_deloop = cfg.auto_deloop; b1.auto_elim = cfg.auto_elim;
+        b1.set_crossings(order[..m].iter().map(|&k| xs[k].clone()));
+        b1.process_all();
+        let mut b2 = TngComplexBuilder::init(h, t, right, None);
+        b2.auto_deloop = cfg.auto_deloop; b2.auto_elim = cfg.auto_elim;
+        b2.set_crossings(order[m..].iter().map(|&k| xs[k].clone()));
+        b2.process_all();
+        let mut c = b1.into_tng_complex();
+        c.connect(b2.into_tng_complex());
+        let mut b = TngComplexBuilder::from(c);
+        b.finalize();
+        return b.into_kh_complex()
+    }
     let mut b = TngComplexBuilder::new(l, h, t, base_pt);
     b.auto_deloop = cfg.auto_deloop;
     b.auto_elim = cfg.auto_elim;
